@@ -118,15 +118,23 @@ func runDecls(dir string) int {
 					}
 				}
 			}
-			var fs []string
+			var fs, omitted []string
 			for _, f := range d.Fields {
 				parts := []string{hx(f.Name)}
 				for _, a := range f.Arguments {
 					parts = append(parts, hx(a.Name))
 				}
+				// omit_resolver_fields drops resolver fields from the struct; they remain resolver methods
+				if cfg.OmitResolverFields && cfg.Models[n].Fields[f.Name].Resolver {
+					omitted = append(omitted, strings.Join(parts, "/"))
+					continue
+				}
 				fs = append(fs, strings.Join(parts, "/"))
 			}
 			decls = append(decls, fmt.Sprintf("m:%s:%s:%s:", hx(n), hexList(impls), strings.Join(fs, ",")))
+			if len(omitted) > 0 {
+				decls = append(decls, fmt.Sprintf("r:%s::%s:", hx(n), strings.Join(omitted, ",")))
+			}
 		case gast.Enum:
 			var vs []string
 			for _, v := range d.EnumValues {
